@@ -1308,6 +1308,7 @@ def hold_sweep_case(run, rng, pv, site_idx, reconnect=False):
     further disconnect() calls do not raise, and the object connects again to
     a working session."""
     import sys
+    from minecraft.exceptions import InvalidState
     sites = reaction_sites()
     code, line, label, state = sites[site_idx % len(sites)]
     # the conversation that leads through the statement
@@ -1465,6 +1466,34 @@ def hold_sweep_case(run, rng, pv, site_idx, reconnect=False):
                               'transport objects or outgoing queue)',
                               dict(w, write=pl, successor_works=ok))
                 stale = True
+            if ok and not stale:
+                # the successor is the registered, active connection: a
+                # further connect() is refused and leaves it undisturbed,
+                # also once the predecessor has run to its end
+                pc.wait_for(lambda: not any(
+                    t.name.startswith('Networking') and t.is_alive()
+                    and t is not conn.networking_thread
+                    for t in threading.enumerate()
+                    if getattr(t, 'connection', None) is conn), 3.0)
+                gen0 = getattr(conn, 'vf_generation', 0)
+                try:
+                    conn.connect()
+                    r2 = None
+                except Exception as e:
+                    r2 = e
+                run.count('hold_sweep_refusal_probes')
+                if not isinstance(r2, InvalidState) or \
+                        getattr(conn, 'vf_generation', 0) != gen0 or \
+                        not H.alive(live):
+                    run.violation('active/not-refused/after-user-thread-'
+                                  'reconnect', 'after disconnect(); connect() '
+                                  'from a user thread (predecessor still '
+                                  'inside a reaction at the time) a further '
+                                  'connect() on the now active connection is '
+                                  'not refused, or disturbs it',
+                                  dict(w, raised=repr(r2),
+                                       tcp_connects=getattr(
+                                           conn, 'vf_generation', 0) - gen0))
             if not ok and not stale:
                 run.violation('reconnect/user-thread/held-in-reaction',
                               'disconnect(); connect() from a user thread '
